@@ -131,11 +131,7 @@ func (e *c08Env) adminStep() {
 		res, _ := e.deliver(funder, lendtypes.NewMsgFundModuleAccounts(pid, a.ID, funder.Addr.String(), sdk.NewCoin(a.Denom, amt)))
 		e.finishTx(pre, "fund-module", "mid-run", res, fmt.Sprintf("%s funds pool %d with %s%s", funder.Name, pid, amt, a.Denom))
 	case x < 40:
-		pre := e.snap()
-		a := e.u.Assets[e.u.Order[e.rnd.Intn(len(e.u.Order))]]
-		amt := sdk.NewInt(int64(2 + e.rnd.Intn(50_000_000)))
-		res, _ := e.deliver(funder, lendtypes.NewMsgFundReserveAccounts(a.ID, funder.Addr.String(), sdk.NewCoin(a.Denom, amt)))
-		e.finishTx(pre, "fund-reserve", "mid-run", res, fmt.Sprintf("%s funds the reserve with %s%s", funder.Name, amt, a.Denom))
+		e.fundReserve("mid-run", false)
 	case x < 55 && e.liqRun:
 		pre := e.snap()
 		a := e.u.Assets[e.u.Order[e.rnd.Intn(len(e.u.Order))]]
@@ -243,6 +239,11 @@ func (e *c08Env) gen1Liquidate(makeUnsafe bool) {
 	}
 	sort.Slice(ids, func(i, j int) bool { return ids[i] < ids[j] })
 	b := pre.borrows[ids[e.rnd.Intn(len(ids))]]
+	near := e.rnd.Intn(2) == 0
+	if fb, ok := pre.borrows[e.gen1ForceID]; ok && e.gen1ForceID != 0 && !fb.IsLiquidated {
+		b, near = fb, true
+	}
+	e.gen1ForceID = 0
 	p, found := e.pair(b.PairID)
 	if !found {
 		return
@@ -257,6 +258,14 @@ func (e *c08Env) gen1Liquidate(makeUnsafe bool) {
 		if coll.Sign() > 0 && debt.Sign() > 0 && p.AssetIn != p.AssetOut {
 			// ratio now = debt/coll; a collateral price scaled by ratio/target puts the ratio at target
 			target := big.NewRat(int64(96+e.rnd.Intn(30)), 100)
+			if par, ok := e.c.App.LendKeeper.GetAssetRatesParams(e.c.Ctx(), p.AssetIn); ok && near {
+				// just above the liquidation threshold: a partial liquidation whose target stays below the principal
+				thr := par.LiquidationThreshold
+				if p.IsEModeEnabled {
+					thr = par.ELiquidationThreshold
+				}
+				target = new(big.Rat).Add(new(big.Rat).SetFrac(thr.BigInt(), big.NewInt(1_000_000_000_000_000_000)), big.NewRat(int64(5+e.rnd.Intn(55)), 1000))
+			}
 			f := new(big.Rat).Quo(new(big.Rat).Quo(debt, coll), target)
 			np := new(big.Rat).Mul(new(big.Rat).SetUint64(pin), f)
 			n := new(big.Int).Quo(np.Num(), np.Denom()).Uint64()
@@ -330,6 +339,40 @@ func (e *c08Env) gen1Bid() bool {
 // gen1Phase: the tail of a liquidation run. Kept apart from the main history so that a discrepancy the generation-1
 // path leaves in the books cannot hide a later one of the ordinary messages.
 func (e *c08Env) gen1Phase(steps int) {
+	// first, while no generation-1 auction is open: the one case the reserve-funding handler settles correctly (app id 3,
+	// a variable same-pool borrow out of pool 1 that is its owner's only one of that collateral and debt, seized just
+	// above its threshold so that the target stays below the principal, nobody has bid) — see fundReserve
+	for try := 0; try < 4 && e.u.App == 3 && !e.panicked && len(e.gen1LendAuctions()) == 0; try++ {
+		s := e.snap()
+		var ids []uint64
+		for id, b := range s.borrows {
+			p, ok := e.pair(b.PairID)
+			if !ok || b.IsLiquidated || b.IsStableBorrow || p.IsInterPool || p.AssetOutPoolID != 1 || p.AssetIn == p.AssetOut {
+				continue
+			}
+			same := 0
+			for _, o := range s.borrows {
+				if q, ok := e.pair(o.PairID); ok && s.lends[o.LendingID].Owner == s.lends[b.LendingID].Owner && q.AssetIn == p.AssetIn && q.AssetOut == p.AssetOut {
+					same++
+				}
+			}
+			if same == 1 {
+				ids = append(ids, id)
+			}
+		}
+		if len(ids) == 0 {
+			e.force = "same-pool"
+			e.txStep()
+			continue
+		}
+		sort.Slice(ids, func(i, j int) bool { return ids[i] < ids[j] })
+		e.gen1ForceID = ids[e.rnd.Intn(len(ids))]
+		e.gen1Liquidate(true)
+		if len(e.gen1LendAuctions()) > 0 {
+			e.rec.Count("gen1_simple_case_auctions_opened", 1)
+			e.fundReserve("gen1-phase/aimed", false)
+		}
+	}
 	for i := 0; i < steps && !e.panicked; i++ {
 		switch x := e.rnd.Intn(100); {
 		case x < 14:
@@ -349,23 +392,113 @@ func (e *c08Env) gen1Phase(steps int) {
 		case x < 70:
 			// somebody funds the reserve while generation-1 lend auctions are open (the handler then looks for
 			// auctions the reserve can settle and re-opens their borrows)
-			pre := e.snap()
-			funder := e.c.Accts[5]
-			a := e.u.Assets[e.u.Order[e.rnd.Intn(len(e.u.Order))]]
-			amt := sdk.NewInt(int64(2 + e.rnd.Intn(50_000_000)))
-			res, _ := e.deliver(funder, lendtypes.NewMsgFundReserveAccounts(a.ID, funder.Addr.String(), sdk.NewCoin(a.Denom, amt)))
-			cls := "no-gen1-auction-open"
-			if len(e.gen1LendAuctions()) > 0 {
-				cls = "gen1-auction-open"
-			}
-			e.finishTx(pre, "fund-reserve", cls, res, fmt.Sprintf("%s funds the reserve with %s%s (%s)", funder.Name, amt, a.Denom, cls))
-			if res.OK() {
-				e.rec.Count("fund_reserve_in_gen1_phase_"+cls, 1)
-			}
+			e.fundReserve("gen1-phase", false)
 		default:
 			e.txStep()
 		}
 	}
+	// last transaction of the run: the reserve is funded whatever auctions are open (see fundReserve)
+	if !e.panicked {
+		e.fundReserve("gen1-phase-last-tx", true)
+	}
+}
+
+// fundReserve: somebody sends MsgFundReserveAccounts. Its handler ends with RemoveFaultyAuctions, which looks for open
+// generation-1 lend auctions under app id 3 and, when the reserve holds an auction's whole target, settles it out of
+// the reserve and re-opens the borrow. That routine books correctly only in the simple case (the borrow lends out of
+// pool 1 at the variable rate, the target does not exceed its principal, nobody has bid yet and the owner has no other
+// borrow of the same collateral asset and debt denom); outside it the tree as given corrupts the books (known finding,
+// label suffix "outside-the-simple-case"). A corrupting settlement is only sent when lastTx is set (the run ends with
+// it); in the middle of a run the message is skipped while such an auction is open.
+func (e *c08Env) fundReserve(cls string, lastTx bool) {
+	c := e.c
+	funder := c.Accts[5]
+	a := e.u.Assets[e.u.Order[e.rnd.Intn(len(e.u.Order))]]
+	amt := sdk.NewInt(int64(2 + e.rnd.Intn(50_000_000)))
+	coin := sdk.NewCoin(a.Denom, amt)
+	open := e.gen1LendAuctions()
+	settles, flags := 0, map[string]bool{}
+	if e.u.App == 3 && len(open) > 0 {
+		ctx := c.Ctx()
+		reserve := map[string]sdk.Int{}
+		resAddr := c.ModAddr(lendtypes.ModuleName)
+		for _, au := range open {
+			tgt := au.InflowTokenTargetAmount
+			have, ok := reserve[tgt.Denom]
+			if !ok {
+				have = c.App.BankKeeper.GetBalance(ctx, resAddr, tgt.Denom).Amount
+				if tgt.Denom == coin.Denom {
+					have = have.Add(coin.Amount)
+				}
+			}
+			if have.LT(tgt.Amount) {
+				reserve[tgt.Denom] = have
+				continue // the handler skips this auction
+			}
+			reserve[tgt.Denom] = have.Sub(tgt.Amount)
+			settles++
+			lv, found := c.App.LiquidationKeeper.GetLockedVault(ctx, 3, au.LockedVaultId)
+			if !found {
+				flags["no-locked-vault"] = true
+				continue
+			}
+			b, found := c.App.LendKeeper.GetBorrow(ctx, lv.OriginalVaultId)
+			if !found {
+				flags["borrow-gone"] = true
+				continue
+			}
+			if picked := c.App.LendKeeper.GetBorrowByUserAndAssetID(ctx, au.VaultOwner.String(), tgt.Denom, au.AssetOutId); picked.ID != b.ID {
+				flags["owner-has-another-such-borrow"] = true
+			}
+			if pair, ok := c.App.LendKeeper.GetLendPair(ctx, b.PairID); !ok || pair.AssetOutPoolID != 1 {
+				flags["other-pool"] = true
+			}
+			if b.IsStableBorrow {
+				flags["stable"] = true
+			}
+			if tgt.Amount.GT(b.AmountOut.Amount) {
+				flags["target-above-principal"] = true
+			}
+			if au.InflowTokenCurrentAmount.Amount.IsPositive() {
+				flags["partly-bid"] = true
+			}
+		}
+	}
+	for f := range flags {
+		e.rec.Count("fund_reserve_flag_"+f, 1)
+	}
+	if settles > 0 && len(flags) == 0 {
+		e.rec.Count("fund_reserve_flag_none", 1)
+	}
+	if settles > 0 && len(flags) > 0 && !lastTx {
+		e.rec.Count("fund_reserve_skipped_while_a_gen1_auction_outside_the_simple_case_is_open", 1)
+		return
+	}
+	e.step++
+	pre := e.snap()
+	res, _ := e.deliver(funder, lendtypes.NewMsgFundReserveAccounts(a.ID, funder.Addr.String(), coin))
+	op, what := "fund-reserve", ""
+	if settles > 0 && res.OK() {
+		var fl []string
+		for f := range flags {
+			fl = append(fl, f)
+		}
+		sort.Strings(fl)
+		if len(fl) == 0 {
+			op, what = "fund-reserve/reserve-settles-gen1-auction/simple-case", fmt.Sprintf(", the handler settles %d generation-1 auction(s) out of the reserve (simple case)", settles)
+			e.rec.Count("fund_reserve_settles_gen1_auction_simple_case", 1)
+		} else {
+			op, what = "fund-reserve/reserve-settles-gen1-auction/outside-the-simple-case", fmt.Sprintf(", the handler settles %d generation-1 auction(s) out of the reserve (%s)", settles, strings.Join(fl, ","))
+			e.rec.Count("fund_reserve_settles_gen1_auction_outside_the_simple_case", 1)
+		}
+		if got := len(open) - len(e.gen1LendAuctions()); got != settles {
+			e.rec.Note(fmt.Sprintf("fund-reserve: expected %d settled generation-1 auctions, %d vanished", settles, got))
+		}
+	}
+	if len(open) > 0 {
+		cls += "/gen1-auction-open"
+	}
+	e.finishTx(pre, op, cls, res, fmt.Sprintf("%s funds the reserve with %s (%s)%s", funder.Name, coin, cls, what))
 }
 
 // c08LogClass reduces a rejection log to a stable class (no amounts, ids or addresses), for counters.
